@@ -30,6 +30,13 @@ for pid in ['C%02d' % i for i in range(1, 21)]:
         mod = importlib.import_module("bounded." + pid.lower())
     except ModuleNotFoundError:
         continue
+    except Exception as e:      # a broken module must not take the other properties' stand-ins down with it
+        def _broken(tier, seed, _pid=pid, _e=repr(e)):
+            return dict(name='module_' + _pid.lower(), bound='-', cases=0, status='error', detail='replay/bounded/%s.py cannot be imported: %s' % (_pid.lower(), _e))
+        _broken.__name__ = 'standin_module_' + pid.lower()
+        STANDINS.setdefault(pid, [])
+        STANDINS[pid] = STANDINS[pid] + [_broken]
+        continue
     STANDINS.setdefault(pid, [])
     STANDINS[pid] = STANDINS[pid] + list(getattr(mod, 'STANDINS', []))
 
